@@ -9,6 +9,46 @@ def all_bits(n):
     return [''.join(p) for p in itertools.product('01', repeat=n)] if n else ['']
 
 
+def twin_cases(rnd, family, T):
+    """pairs that raw-byte shortcuts confuse: (1) a left-padded and a right-padded buffer of the same non-aligned length whose STORED BYTES
+    are the same (so their bits differ); (2) two buffers of the same length whose contents differ only by where the zero bytes sit
+    (0x0100 / 0x0001, 0x1600 / 0x0016): different bit strings that a comparison ignoring zero bytes takes for equal"""
+    out = []
+    for _ in range(400 if T else 60):
+        n = rnd.choice([9, 10, 12, 13, 15, 17, 20, 23, 28, 33, 41])
+        pl = (8 - n % 8) % 8
+        nb = (n + 7) // 8
+        v = rnd.getrandbits(8 * nb) & ~((1 << pl) - 1) & ((1 << (8 * nb - pl)) - 1)       # zero top pl bits and zero low pl bits
+        stored = format(v, '0%db' % (8 * nb))
+        a = (stored[pl:], 'L')            # left-padded: the bits are the last n of the stored bytes
+        b = (stored[:n], 'R')             # right-padded: the first n
+        if family == 'C06':
+            for op in ('and', 'or', 'xor'):
+                out.append((op, [a, b], ()))
+                out.append((op, [b, a], ()))
+        else:
+            out.append(('eq', [a, b], ()))
+            out.append(('hash', [a, b], ()))
+            out.append(('indict', [a, b, (randbits(rnd, n), 'L')], ()))
+    for _ in range(300 if T else 50):
+        k = rnd.choice([2, 2, 3, 4, 5])
+        cut = rnd.choice([0, 0, 1, 3, 7])
+        byts = [rnd.choice(['00000000', format(rnd.randrange(1, 256), '08b')]) for _ in range(k)]
+        if all(x == '00000000' for x in byts):
+            byts[0] = '00010110'
+        sh = byts[1:] + byts[:1]
+        x = ''.join(byts)[cut:]
+        y = ''.join(sh)[cut:]
+        for sa in SIDES:
+            for sb in SIDES:
+                if family == 'C06':
+                    out.append(('xor', [(x, sa), (y, sb)], ()))
+                else:
+                    out.append(('eq', [(x, sa), (y, sb)], ()))
+                    out.append(('indict', [(x, sa), (y, sb), (x, sb)], ()))
+    return out
+
+
 def huge_cases(rnd, family, T):
     """operands and amounts beyond 16384 / 32768 / 65536 bits (2, 4, 8 KiB of content): blocks, tables and constants of a fixed size that an
     implementation may use internally are exceeded here; either padding side, lengths that are not byte multiples, operands of opposite sides"""
@@ -17,11 +57,22 @@ def huge_cases(rnd, family, T):
     for n in sizes:
         for sd in SIDES:
             a = (randbits(rnd, n), sd)
+            if rnd.random() < 0.6:
+                # contents with runs of zero bytes (a slice that starts with zero bytes, an operand whose head or tail is empty of ones)
+                bits_ = list(a[0])
+                for _z in range(rnd.randint(1, 4)):
+                    z0 = rnd.randrange(0, n - 64)
+                    bits_[z0:z0 + rnd.choice([8, 16, 24, 40])] = '0' * len(bits_[z0:z0 + rnd.choice([8, 16, 24, 40])])
+                a = (''.join(bits_)[:n], sd)
             other = 'L' if sd == 'R' else 'R'
             if family == 'C05':
                 out.append(('iter', [a], ()))
                 out.append(('getitem', [a], (rnd.randint(0, 9), n - rnd.randint(0, 9))))
                 out.append(('getitem', [a], (n - 20000, n - 3)))
+                z_ = a[0].find('0' * 8, 7)
+                if z_ >= 0:
+                    out.append(('getitem', [a], (z_, min(n, z_ + 3000))))       # a long slice whose first byte is zero
+                    out.append(('getitem', [a], (max(0, z_ - 3), min(n, z_ + 2500))))
                 out.append(('add', [(randbits(rnd, rnd.choice([3, 8, 13])), rnd.choice(SIDES)), a], ()))
                 out.append(('add', [a, (randbits(rnd, 8195), other)], ()))
                 out.append(('add', [(randbits(rnd, 8195), other), a], ()))
@@ -207,6 +258,7 @@ def gen_c06(rnd, tier):
                     cases.append(('invert', [a], ()))
                     cases.append(('shift', [a], (rnd.randint(-10, n + 2), 0)))
     cases += huge_cases(rnd, 'C06', tier != 'quick')
+    cases += twin_cases(rnd, 'C06', tier != 'quick')
     return cases
 
 
@@ -266,6 +318,7 @@ def gen_c13(rnd, tier):
             cases.append(('eqbytes', [a], (bytes([content[0] ^ 1]) + content[1:] if content else b'\x00',)))
             cases.append(('hashkey', [a], (content,)))
     cases += huge_cases(rnd, 'C13', tier != 'quick')
+    cases += twin_cases(rnd, 'C13', tier != 'quick')
     return cases
 
 
